@@ -17,6 +17,7 @@ var families = map[string]func(*h.Run){
 	"C02": props.C02,
 	"C03": props.C03,
 	"C04": props.C04,
+	"C05": props.C05,
 	"C06": props.C06,
 	"C08": props.C08,
 	"C09": props.C09,
